@@ -500,3 +500,81 @@ class AtomsHelperHistories:
 
 register(Obligation(name="C19.Atoms.recenter_set_k.histories_equal_fresh", prop=PROP, engine="B", bounded=True, run=AtomsHelperHistories(), functions=["eminus.atoms:Atoms.recenter", "eminus.atoms:Atoms.set_k"],
                     doc="BOUNDED: after recenter the structure factors (and everything else) are those of a fresh object at the final positions; set_k without weights gives equal weights"))
+
+
+# ------------------------------------------------------------------------------------------------
+# RSCF / USCF: the spin-fixing wrappers of SCF have their own atoms setter
+# ------------------------------------------------------------------------------------------------
+
+
+class ScfWrapperHistories:
+    """BOUNDED: RSCF / USCF objects after a history equal fresh objects with the same final inputs: constructed from an Atoms object whose k-points were
+    changed directly after an earlier build(); the atoms replaced on an existing object (potential, pseudopotential data follow the new atoms)."""
+
+    def problems(self):
+        import numpy as np
+
+        import eminus
+        from eminus import RSCF, USCF, Atoms
+
+        from contracts.c19_replay import _diff, _summary
+
+        eminus.config.backend = "numpy"
+        eminus.config.verbose = "critical"
+        bad = []
+
+        def state(scf):
+            d = _summary(scf.atoms)
+            d["Vloc"] = np.asarray(scf.Vloc)
+            d["gth_species"] = sorted(scf.gth.GTH)
+            d["NbetaNL"] = int(scf.gth.NbetaNL)
+            d["Nspin"] = int(scf.atoms.occ.Nspin)
+            return d
+
+        cell = [[6.0, 0.3, 0.0], [0.0, 6.5, 0.2], [0.1, 0.0, 7.0]]
+        for cls, unres in ((RSCF, False), (USCF, True), (RSCF, True), (USCF, False)):
+            for what, change in (("kpts.kmesh = [2, 1, 1]", lambda a: setattr(a.kpts, "kmesh", [2, 1, 1])),
+                                 ("kpts.kshift = [0.1, 0, 0.2]", lambda a: setattr(a.kpts, "kshift", [0.1, 0.0, 0.2])),
+                                 ("kpts.gamma_centered = False; kpts.kmesh = [2, 2, 1]", lambda a: (setattr(a.kpts, "gamma_centered", False), setattr(a.kpts, "kmesh", [2, 2, 1])))):
+                at = Atoms("He", [0.1, 0.2, 0.3], ecut=2, a=cell, unrestricted=unres)
+                at.build()
+                change(at)
+                ref = Atoms("He", [0.1, 0.2, 0.3], ecut=2, a=cell, unrestricted=unres)
+                change(ref)
+                try:
+                    d = _diff(state(cls(at, verbose="critical")), state(cls(ref, verbose="critical")))
+                except Exception as e:  # noqa: BLE001
+                    d = [f"raised {type(e).__name__}: {e}"]
+                if d:
+                    bad.append(dict(history=f"Atoms(He, unrestricted={unres}); build(); {what}; {cls.__name__}(atoms)", differs_from_fresh_object_in=d))
+            # the atoms replaced on an existing object
+            a1 = Atoms("He", [0.1, 0.2, 0.3], ecut=2, a=cell, unrestricted=unres)
+            a2 = Atoms(["Li", "H"], [[0.0, 0.0, 0.0], [0.0, 0.3, 2.9]], ecut=3, a=7.0, unrestricted=unres)
+            try:
+                scf = cls(a1, verbose="critical")
+                scf.atoms = a2
+                d = _diff(state(scf), state(cls(a2, verbose="critical")))
+            except Exception as e:  # noqa: BLE001
+                d = [f"raised {type(e).__name__}: {e}"]
+            if d:
+                bad.append(dict(history=f"{cls.__name__}(He atoms, unrestricted={unres}); scf.atoms = LiH atoms", differs_from_fresh_object_in=d))
+        return bad
+
+    def __call__(self, ob, tier, seed):
+        from pycv.framework import BOUNDED_OK
+
+        try:
+            bad = self.problems()
+        except Exception as e:  # noqa: BLE001
+            bad = [dict(raised=f"{type(e).__name__}: {e}")]
+        if bad:
+            return Result(REFUTED, backend="native", witness=bad[0], replayed=True, replay_info=dict(failing=bad[:6]), detail=f"RSCF / USCF history differs from a fresh object: {bad[0]}")
+        return Result(BOUNDED_OK, backend="native", detail="bounded: RSCF / USCF from an Atoms object with k-points changed after build() (3 changes x 4 spin combinations) and with the atoms replaced: as fresh objects")
+
+    def replay(self, wit):
+        bad = self.problems()
+        return bool(bad), dict(failing=bad[:6])
+
+
+register(Obligation(name="C19.RSCF_USCF.histories_equal_fresh", prop=PROP, engine="B", bounded=True, functions=["eminus.scf:RSCF.atoms", "eminus.scf:USCF.atoms", "eminus.atoms:Atoms.unrestricted"],
+                    run=ScfWrapperHistories(), doc="BOUNDED: RSCF / USCF after k-point changes behind a built Atoms object and after replacing the atoms equal fresh objects"))
